@@ -262,11 +262,11 @@ const (
 type c16Logical struct {
 	req      c16WireReq
 	state    int
-	tok      string          // token of the running call
-	cur      *c16Attempt     // attempt waiting in the transport
-	ret      chan error      // result of the running call
-	calls    int             // calls made so far
-	attempts int             // HTTP attempts of the running call
+	tok      string      // token of the running call
+	cur      *c16Attempt // attempt waiting in the transport
+	ret      chan error  // result of the running call
+	calls    int         // calls made so far
+	attempts int         // HTTP attempts of the running call
 }
 
 const c16WaitLimit = 20 * time.Second
